@@ -18,3 +18,15 @@ func (nc *netConn) LocalAddr() net.Addr {
 	}
 	return websocketAddr{}
 }
+
+// releaseOnClose cancels the two contexts derived from the caller's when the
+// connection is closed, also when it is closed through the Conn and not through
+// the net.Conn: a context derived from a parent of a type the context package
+// does not know is watched by a goroutine until it is cancelled, and that
+// goroutine must not outlive the connection.
+func (nc *netConn) releaseOnClose() {
+	nc.c.onClose(func() {
+		nc.writeCancel()
+		nc.readCancel()
+	})
+}
